@@ -86,14 +86,19 @@ def _worker(conn, optset, extra, fn_name, jobs, job_timeout, init_name):
 def run(tasks, fn_name, job_timeout=120, nproc=None, extra=(), init_name=None, chunk=None, progress=None):
     """tasks: list of (optset or None, [jobs]).  Returns [(optset, job, result)] and merged solver stats."""
     nproc = nproc or NPROC
-    total = sum(len(j) for _, j in tasks)
+    total = sum(len(t[1]) for t in tasks)
     if chunk is None:
         chunk = max(1, min(200, total // (nproc * 3) + 1))
     queue = []
-    for optset, jobs in tasks:
-        for i in range(0, len(jobs), chunk):
-            queue.append((optset, list(jobs[i:i + chunk])))
-    queue.reverse()
+    for t in tasks:
+        optset, jobs = t[0], t[1]
+        ck = t[2] if len(t) > 2 and t[2] else chunk
+        # no more than needed to keep every core busy, no fewer jobs per unit than amortises the ~3 s start-up
+        ck = max(1, min(ck, len(jobs) // 4 + 1)) if len(jobs) > 64 else ck
+        for i in range(0, len(jobs), ck):
+            queue.append((optset, list(jobs[i:i + ck])))
+    # longest units first
+    queue.sort(key=lambda u: len(u[1]))
     from vlib.smt import Stats
     stats = Stats()
     results = []
